@@ -454,6 +454,7 @@ fn main() {
     let mut maxlen = 0usize;
     let mut aux = 0usize;
     let mut distinct = std::collections::HashSet::new();
+    let mut rt_done: std::collections::HashSet<String> = std::collections::HashSet::new();
 
     for (ci, case) in cases.iter().enumerate() {
         rep.cases += 1;
@@ -532,7 +533,9 @@ fn main() {
         }
         // write / read back
         let rt = &case["rt"];
-        if rt.is_object() && rt["w"].as_bool() == Some(true) {
+        // the read-back expectation depends on the object only: each distinct object once
+        let obj_key = project(&obj).to_string();
+        if rt.is_object() && rt["w"].as_bool() == Some(true) && rt_done.insert(obj_key) {
             for (ts, key) in TSS {
                 rt_run += 1;
                 let exp = &rt[*key];
@@ -575,6 +578,7 @@ fn main() {
     rep.extra.insert("by_fingerprint".into(), json!(dd.counts));
     rep.extra.insert("steps".into(), json!(steps_run));
     rep.extra.insert("roundtrips".into(), json!(rt_run));
+    rep.extra.insert("distinct_objects_written".into(), json!(rt_done.len()));
     rep.extra.insert("err_steps".into(), json!(err_steps));
     rep.extra.insert("max_history".into(), json!(maxlen));
     rep.extra.insert("aux_mismatches".into(), json!(aux));
